@@ -1030,3 +1030,136 @@ func c17IncludeOrderKept(c *Ctx, rule string) {
 			return ""
 		}())
 }
+
+// loopCarriedState lists the variables declared outside the first range loop over `over` in f and assigned inside it.
+func loopCarriedState(f *core.Func, isLoop func(*ast.RangeStmt) bool) (carried []string, found bool) {
+	info := f.Info()
+	var loop *ast.RangeStmt
+	ast.Inspect(f.Body, func(m ast.Node) bool {
+		if rs, ok := m.(*ast.RangeStmt); ok && loop == nil && isLoop(rs) {
+			loop = rs
+		}
+		return true
+	})
+	if loop == nil {
+		return nil, false
+	}
+	set := map[string]bool{}
+	note := func(l ast.Expr) {
+		id, ok := ast.Unparen(l).(*ast.Ident)
+		if !ok || id.Name == "_" {
+			return
+		}
+		o := info.ObjectOf(id)
+		if o == nil || (o.Pos() >= loop.Pos() && o.Pos() <= loop.End()) {
+			return
+		}
+		if v, ok := o.(*types.Var); ok && !v.IsField() && v.Parent() != v.Pkg().Scope() {
+			set[core.CanonName(o)] = true
+		}
+	}
+	ast.Inspect(loop.Body, func(m ast.Node) bool {
+		switch s := m.(type) {
+		case *ast.AssignStmt:
+			for _, l := range s.Lhs {
+				note(l)
+			}
+		case *ast.IncDecStmt:
+			note(s.X)
+		}
+		return true
+	})
+	for k := range set {
+		carried = append(carried, k)
+	}
+	sort.Strings(carried)
+	return carried, true
+}
+
+// scanIsStateless: the only state the rule scan carries from one match set to the next is the scan automaton's
+// (good sub-rule, bad rule, must): every predicate is evaluated afresh for its own entry.  A memo of an earlier
+// entry's result (e.g. the last LPM probe keyed by set index) answers a later entry with another operand's result.
+func scanIsStateless(c *Ctx, rule string, rel, fn string, allowed []string) {
+	f := c.fn(rule, rel, fn)
+	if f == nil {
+		return
+	}
+	info := f.Info()
+	carried, ok := loopCarriedState(f, func(rs *ast.RangeStmt) bool {
+		t := info.TypeOf(rs.X)
+		return t != nil && (strings.Contains(t.String(), "compiledRoutingMatch") || strings.Contains(t.String(), "MatchSet") || strings.Contains(t.String(), "matchSet"))
+	})
+	allow := map[string]bool{}
+	for _, a := range allowed {
+		allow[a] = true
+	}
+	var extra []string
+	for _, v := range carried {
+		if !allow[v] {
+			extra = append(extra, v)
+		}
+	}
+	c.R.Checkf(rule, "scan-carries-only-the-automaton-state@"+fn, c.pos(f.Pos()), ok && len(extra) == 0,
+		"the loop over the match sets assigns no variable declared outside it other than the scan state %v (carried: %v)%s", allowed, carried, func() string {
+			if len(extra) > 0 {
+				return fmt.Sprintf(" — VIOLATED: %v outlive(s) an iteration: a result remembered from an earlier match set is applied to a later one (the kernel evaluates every entry afresh)", extra)
+			}
+			if !ok {
+				return " — loop over the match sets not found: rule lost its anchor"
+			}
+			return ""
+		}())
+}
+
+// c06HostFromHeadLine: sniffHTTPHostHeader reports a name only from a header line of the request head: every
+// successful return is reached past the end-of-headers test (an empty line stops the walk) and on the edge where
+// the field name compared equal to "host" (case-insensitively).  A search over the whole buffer finds "Host:" in a
+// body or in a pipelined second request.
+func c06HostFromHeadLine(c *Ctx, rule string) {
+	f := c.fn(rule, "component/sniffing", "sniffHTTPHostHeader")
+	if f == nil {
+		return
+	}
+	info := f.Info()
+	g := f.Graph()
+	n, bad := 0, ""
+	for _, p := range g.Find(func(nd ast.Node) bool {
+		rs, ok := nd.(*ast.ReturnStmt)
+		if !ok || len(rs.Results) != 2 {
+			return false
+		}
+		id, ok := ast.Unparen(rs.Results[1]).(*ast.Ident)
+		return ok && id.Name == "nil"
+	}) {
+		n++
+		pastEnd, onHost := false, false
+		for _, gd := range g.Guards(p) {
+			if be, ok := gd.Cond.(*ast.BinaryExpr); ok && gd.Polarity {
+				if call, isCall := ast.Unparen(be.X).(*ast.CallExpr); isCall {
+					if id, isId := call.Fun.(*ast.Ident); isId && id.Name == "len" && len(call.Args) == 1 {
+						if tv, has := info.Types[be.Y]; has && tv.Value != nil && tv.Value.String() == "0" && (be.Op == token.NEQ || be.Op == token.GTR) {
+							if t := info.TypeOf(call.Args[0]); t != nil && t.String() == "[]byte" {
+								pastEnd = true
+							}
+						}
+					}
+				}
+			}
+			if call, ok := ast.Unparen(gd.Cond).(*ast.CallExpr); ok && gd.Polarity {
+				if cal := core.Callee(info, call); cal != nil && cal.Pkg() != nil && cal.Pkg().Path() == "bytes" && (cal.Name() == "EqualFold" || cal.Name() == "Equal") {
+					onHost = true
+				}
+			}
+		}
+		if !(pastEnd && onHost) && bad == "" {
+			bad = fmt.Sprintf("the return at %s is not behind the end-of-headers test and the field-name comparison (past end-of-headers test: %v, on field-name match: %v)", c.pos(p.Node().Pos()), pastEnd, onHost)
+		}
+	}
+	c.R.Checkf(rule, "host-is-taken-from-a-line-of-the-head@sniffHTTPHostHeader", c.pos(f.Pos()), bad == "" && n >= 1,
+		"every name the HTTP sniffer reports comes from a header line before the empty line, whose field name compared equal to host (%d successful return(s))%s", n, func() string {
+			if bad != "" {
+				return " — VIOLATED: " + bad + ": a name found anywhere else in the buffer (body, pipelined request) is not the name the request carries"
+			}
+			return ""
+		}())
+}
